@@ -5,9 +5,12 @@ SPEC = {
     ],
     "rule": "case = (KEM, KDF, AEAD, mode, ikmR, ikmS, ikmE, info, psk, psk_id, messages, exports, negative relation) drawn by rapid per KEM, "
             "plus one (thorough: four) deterministic pseudo-random case for each of the 252 KEM x KDF x AEAD x mode cells, plus the PSK-input table "
-            "{nil, empty, non-empty}^2 x {PSK, AuthPSK} x {sender, receiver} and the re-used-object rows, plus the official vectors replayed on circl. "
+            "{nil, empty, non-empty}^2 x {PSK, AuthPSK} x {sender, receiver} and the re-used-object rows, plus the official vectors replayed on circl, "
+            "plus sequences of 2..5 Setup* calls on one Sender and one Receiver object (drawn, and all 16 ordered pairs of modes per KEM), plus single-bit flips of one honest enc per KEM "
+            "(all bits for P-256/384/521/X25519 and in the thorough tier; edges + the raw X25519 share + a sample otherwise); the encapsulation randomness is handed to Setup through "
+            "readers that return whole, one-byte, half and random-chunk reads. "
             "non-trivial = the case's mode is not base, or it is a negative relation (receiver differing in exactly one of skR/info/psk/psk_id/mode/pkS), "
-            "or an asserted row of the PSK table, or an official vector; distinct by FNV-64 of (sub-check, suite, mode, all inputs, relation)",
+            "or an asserted row of the PSK table, or an official vector, or a re-use sequence with two different modes, or an altered enc; distinct by FNV-64 of (sub-check, suite, mode, all inputs, relation)",
     "assumptions": COMMON_ASSUME + [
         "the reference zz_verif/ref/hpke follows RFC 9180; it is pinned by official vectors for base mode (X25519, P-256, P-521; SHA-256/512; all AEADs), "
         "PSK mode (key schedule, via the X25519Kyber768Draft00 vectors) and X-Wing; auth modes, P-384, X448-DHKEM and HKDF-SHA384 are pinned by the RFC text, "
